@@ -5,6 +5,7 @@ package main
 import (
 	"fmt"
 	"sync"
+	"sync/atomic"
 	"time"
 
 	"github.com/NethermindEth/juno/core"
@@ -54,6 +55,9 @@ type headRec struct {
 	num  uint64
 	hash felt.Felt
 }
+
+// drainLosses counts, over the whole process, drains that timed out.
+var drainLosses atomic.Int32
 
 type recorder struct {
 	mu      sync.Mutex
@@ -170,6 +174,9 @@ func (r *recorder) onCommit(inner db.KeyValueReader) {
 // readers: called from the sync listener's OpStore callback, i.e. after Store and before the
 // sends of the current block). Returns false if the readers did not catch up in time.
 func (r *recorder) drain(wantNewHeads, wantReorgs int, timeout time.Duration) bool {
+	if drainLosses.Load() >= 3 {
+		timeout = 50 * time.Millisecond // notifications are evidently missing: do not wait for each one
+	}
 	deadline := time.Now().Add(timeout)
 	timer := time.AfterFunc(timeout, func() { r.mu.Lock(); r.cond.Broadcast(); r.mu.Unlock() })
 	defer timer.Stop()
@@ -178,6 +185,7 @@ func (r *recorder) drain(wantNewHeads, wantReorgs int, timeout time.Duration) bo
 	for (r.recvNewHead < wantNewHeads || r.recvReorg < wantReorgs) && !r.lostWait {
 		if time.Now().After(deadline) {
 			r.lostWait = true
+			drainLosses.Add(1)
 			return false
 		}
 		r.cond.Wait()
